@@ -225,6 +225,15 @@ def handle (args : List String) : String :=
     let wfS := cond wf "1" "0"
     let rbS := cond rb "1" "0"
     s!"{hex text} wf={wfS} rb={rbS}"
+  | ["epw", ename, letter, i] => match unhex i with
+    | some input =>
+      let l : Text := if letter == "-" then [] else letter.toList
+      (match Fields.enumPwv ename l input with
+      | some (.ok (ser, _)) => s!"ok {hex ser}"
+      | some .err => "err"
+      | some .panic => "panic"
+      | none => "#skip")
+    | none => "bad-op"
   | ["vallist"] => ",".intercalate (Rules.modelled.map (fun p => toString p.1))
   | ["fldlist"] => ",".intercalate Fields.modelledNames
   | ["fld", name, i] => match unhex i with
